@@ -345,7 +345,7 @@ fn gen_start(rng: &mut Rng, profile: Profile) -> Start {
     }
 }
 
-const TEMPLATES: &[&str] = &["", "-", "$0", "[$1]", "$2$1", "$$", "${x}", "<$0|$1|$3>", "$10", "${y", "é$0"];
+const TEMPLATES: &[&str] = &["", "-", "$0", "[$1]", "$2$1", "$$", "${x}", "<$0|$1|$3>", "$10", "${y", "é$0", "<>", "é", "-", ""];
 
 pub fn gen_world(base: u64, run: u64, profile: Profile) -> World {
     let root = Rng::world_root(base, run);
